@@ -454,5 +454,117 @@ theorem fillUp_spec (n k : Nat) (hkn : k ≤ n) (sel : List Nat) (hnd : sel.Nodu
     simp at this
     have h3' : (fillUp n k sel).length ≤ k := h3
     omega
+/-! ### L2 and L4 -/
+
+theorem hvSpec_congr_mem {S T : List Pt} (hS : ∀ p ∈ S, p.length = 2) (hT : ∀ p ∈ T, p.length = 2)
+    (h : ∀ p, p ∈ S ↔ p ∈ T) : hvSpec S [0, 0] = hvSpec T [0, 0] :=
+  Nat.le_antisymm (hvSpec_mono_subset (m := 2) rfl hT fun p hp => (h p).mp hp)
+    (hvSpec_mono_subset (m := 2) rfl hS fun p hp => (h p).mpr hp)
+
+theorem ptOf_length (F : List P2) (i : Nat) : (ptOf F i).length = 2 := rfl
+
+/-- removing repeated indices from a chain keeps it a chain (now strictly decreasing) with the same area -/
+theorem eraseDups_chain {F : List P2} (hF : IsFront F) {c : List Nat} (hc : IsRChain F c) :
+    IsRChain F c.eraseDups ∧ c.eraseDups.Pairwise (fun a b => b < a) ∧ areaL F c.eraseDups 0 = areaL F c 0 := by
+  have hsub := eraseDups_sublist c
+  have hch : IsRChain F c.eraseDups :=
+    ⟨hc.1.sublist hsub, fun m hm => hc.2 m (List.mem_eraseDups.mp hm)⟩
+  refine ⟨hch, ?_, ?_⟩
+  · have := hch.1.and (nodup_eraseDups c)
+    exact this.imp (by intro a b h; omega)
+  · have e := hvSpec_congr_mem (S := c.eraseDups.map (ptOf F)) (T := c.map (ptOf F))
+      (by simp [ptOf_length]) (by simp [ptOf_length])
+      (by intro p; simp only [List.mem_map, List.mem_eraseDups])
+    rw [areaL_eq_hvSpec hF hch, areaL_eq_hvSpec hF hc, e]
+
+/-- **L2** value of the dynamic programme.  With `(h, chosen) = ` the result of `k − 1` rounds and
+`V = max_i (f1_i·f2_i + h[i])` (attained at `lastIndex`): `V` bounds the area of every increasing chain of at most `k`
+points of the front, and the back-tracked index set (duplicates removed, in increasing order) is a non-empty
+increasing chain of at most `k` points whose area is exactly `V`; hence `V` is the maximum of `chainArea` over the
+non-empty increasing chains of length `≤ k`. -/
+theorem dp_value_eq_best_chain {F : List P2} (hF : IsFront F) {k : Nat} (hk : 1 ≤ k) (hn : 1 ≤ F.length) :
+    let hc := dpRounds F (k - 1) (F.map fun _ => 0) []
+    let last := lastIndex F hc.1
+    let V := dpVal F hc.1 last
+    last < F.length ∧ (∀ i, i < F.length → dpVal F hc.1 i ≤ V) ∧
+    (∀ c : List Nat, c.Pairwise (· < ·) → (∀ m ∈ c, m < F.length) → c.length ≤ k → chainArea F c ≤ V) ∧
+    (let c := (backtrack last hc.2).eraseDups.reverse
+     c ≠ [] ∧ c.Pairwise (· < ·) ∧ (∀ m ∈ c, m < F.length) ∧ c.length ≤ k ∧ chainArea F c = V) := by
+  intro hc last V
+  have inv := dpRounds_inv hF (k - 1) 0 _ _ (dpInv_init F)
+  obtain ⟨h1, h2, h3, h4, h5, h6⟩ := dp_final hF inv hn
+  have hk' : 0 + (k - 1) + 1 = k := by omega
+  rw [hk'] at h3 h5
+  obtain ⟨e1, e2, e3⟩ := eraseDups_chain hF h4
+  refine ⟨h1, h2, ?_, ?_, ?_, ?_, ?_, ?_⟩
+  · intro c hinc hlt hlen
+    exact h3 c.reverse ⟨List.pairwise_reverse.mpr (hinc.imp (by intro a b h; omega)),
+      fun m hm => hlt m (List.mem_reverse.mp hm)⟩ (by simpa using hlen)
+  · intro hnil
+    have hne : backtrack last hc.2 ≠ [] := by
+      intro h0; rw [h0] at h5; simp at h5; omega
+    obtain ⟨a, ha⟩ := List.exists_mem_of_ne_nil _ hne
+    have : a ∈ (backtrack last hc.2).eraseDups.reverse := List.mem_reverse.mpr (List.mem_eraseDups.mpr ha)
+    rw [hnil] at this
+    simp at this
+  · exact List.pairwise_reverse.mpr e2
+  · intro m hm; exact e1.2 m (List.mem_reverse.mp hm)
+  · rw [List.length_reverse]
+    exact Nat.le_trans (eraseDups_sublist _).length_le (Nat.le_of_eq h5)
+  · unfold chainArea
+    rw [List.reverse_reverse, e3, h6]
+
+/-- non-vacuity of L2/L4: a front with 4 points, `k = 2` -/
+example : IsFront [⟨-7, -1, 0⟩, ⟨-5, -2, 1⟩, ⟨-2, -4, 2⟩, ⟨-1, -6, 3⟩] ∧ 1 ≤ 2 ∧ 2 ≤ 4 := by
+  refine ⟨⟨by decide, by decide⟩, by decide, by decide⟩
+
+theorem ptOf_eq (F : List P2) (i : Fin F.length) : ptOf F i.val = (F[i]).pt := by
+  simp [ptOf, List.getD_eq_getElem?_getD]
+
+/-- **L4** `hypSSP` selects exactly `k` distinct positions of the front, and no sub-list of the front with at most
+`k` points has a larger hypervolume (reference point `(0,0)`) than the selected points. -/
+theorem hypSSP_optimal {F : List P2} (hF : IsFront F) {k : Nat} (hk : 1 ≤ k) (hkn : k ≤ F.length) :
+    (hypSSP F k).Nodup ∧ (hypSSP F k).length = k ∧ (∀ i ∈ hypSSP F k, i < F.length) ∧
+    ∀ T : List P2, T.Sublist F → T.length ≤ k →
+      hvSpec (T.map P2.pt) [0, 0] ≤ hvSpec ((hypSSP F k).map (ptOf F)) [0, 0] := by
+  have hn : 1 ≤ F.length := by omega
+  have inv := dpRounds_inv hF (k - 1) 0 _ _ (dpInv_init F)
+  obtain ⟨h1, h2, h3, h4, h5, h6⟩ := dp_final hF inv hn
+  have hk' : 0 + (k - 1) + 1 = k := by omega
+  rw [hk'] at h3 h5
+  have hyp : hypSSP F k = fillUp F.length k
+      (backtrack (lastIndex F (dpRounds F (k - 1) (F.map fun _ => 0) []).1)
+        (dpRounds F (k - 1) (F.map fun _ => 0) []).2).eraseDups := by
+    unfold hypSSP; rfl
+  generalize (dpRounds F (k - 1) (F.map fun _ => 0) []).1 = h at *
+  generalize (dpRounds F (k - 1) (F.map fun _ => 0) []).2 = ch at *
+  obtain ⟨f1, f2, f3, f4⟩ := fillUp_spec F.length k hkn (backtrack (lastIndex F h) ch).eraseDups
+    (nodup_eraseDups _) (fun m hm => h4.2 m (List.mem_eraseDups.mp hm))
+    (Nat.le_trans (eraseDups_sublist _).length_le (Nat.le_of_eq h5))
+  rw [hyp]
+  refine ⟨f1, f3, f2, ?_⟩
+  intro T hT hTk
+  obtain ⟨is, rfl, hinc⟩ := List.sublist_eq_map_getElem hT
+  have hmap : (is.map fun x => F[x]).map P2.pt = ((is.map Fin.val).reverse.reverse).map (ptOf F) := by
+    rw [List.reverse_reverse, List.map_map, List.map_map]
+    apply List.map_congr_left
+    intro i _
+    exact (ptOf_eq F i).symm
+  have hchain : IsRChain F (is.map Fin.val).reverse := by
+    refine ⟨List.pairwise_reverse.mpr ?_, ?_⟩
+    · rw [List.pairwise_map]
+      exact hinc.imp (by intro a b h; exact Nat.le_of_lt h)
+    · intro m hm
+      obtain ⟨i, _, rfl⟩ := List.mem_map.mp (List.mem_reverse.mp hm)
+      exact i.isLt
+  have hub := h3 _ hchain (by simpa using hTk)
+  rw [areaL_eq_hvSpec hF hchain] at hub
+  rw [h6.symm, areaL_eq_hvSpec hF h4] at hub
+  rw [hmap, hvSpec_perm ((List.reverse_perm _).map _)]
+  refine Nat.le_trans (by exact_mod_cast hub) ?_
+  apply hvSpec_mono_subset (m := 2) rfl (by simp [ptOf_length])
+  intro p hp
+  obtain ⟨m, hm, rfl⟩ := List.mem_map.mp hp
+  exact List.mem_map.mpr ⟨m, f4 m (List.mem_eraseDups.mpr hm), rfl⟩
 
 end SharkVerif.SSP
